@@ -520,9 +520,18 @@ pub fn format_block(ctx: &Context, block: &Block, shape: Shape) -> Block {
 
     while let Some((stmt, semi)) = stmt_iterator.next() {
         ctx = ctx.check_toggle_formatting(stmt);
+        let should_format = ctx.should_format_node(stmt);
 
         let shape = shape.reset();
         let mut stmt = format_stmt(&ctx, stmt, shape);
+
+        // A statement which is ignored or outside of the formatting range must be left as it is,
+        // including its semicolon and the trivia around it
+        if !matches!(should_format, FormatNode::Normal) {
+            found_first_stmt = true;
+            formatted_statements.push((stmt, semi.to_owned()));
+            continue;
+        }
 
         // If this is the first stmt, then remove any leading newlines
         if !found_first_stmt {
@@ -588,18 +597,20 @@ pub fn format_block(ctx: &Context, block: &Block, shape: Shape) -> Block {
     let formatted_last_stmt = match block.last_stmt_with_semicolon() {
         Some((last_stmt, semi)) => {
             ctx = ctx.check_toggle_formatting(last_stmt);
+            let should_format = ctx.should_format_node(last_stmt);
 
             let shape = shape.reset();
             let mut last_stmt = format_last_stmt(&ctx, last_stmt, shape);
             // If this is the first stmt, then remove any leading newlines
-            if !found_first_stmt && matches!(ctx.should_format_node(&last_stmt), FormatNode::Normal)
-            {
+            if !found_first_stmt && matches!(should_format, FormatNode::Normal) {
                 last_stmt = last_stmt_remove_leading_newlines(last_stmt);
             }
 
             // LastStmt will never need a semicolon
             // We need to check if we previously had a semicolon, and keep the comments if so
+            // (unless the statement is ignored or outside of the formatting range: then it is left as it is)
             let semicolon = match semi {
+                Some(semi) if !matches!(should_format, FormatNode::Normal) => Some(semi.to_owned()),
                 Some(semi) => {
                     // Append semicolon trailing trivia to the end, but before the newline
                     // TODO: this is a bit of a hack - we should probably move newline appending to this function
